@@ -1,11 +1,122 @@
 (* Properties_C57.v — C57: rock rebuild indexes only intact entries from any disk image.
-   Statements only; proofs live in RockrebuildProofs.v. *)
+   Statements only; proofs live in RockrebuildProofs.v.
+
+   [rebuild slotSize doublecheck img] is the model of the whole Rock::Rebuild job over a db image [img]
+   (one element per db slot: what its first 4 KB say): Ok s = finished with index state s, Abort = an
+   assert() failed, Thrown = an exception escaped the job (squid dies in both cases), NoFuel = model
+   artefact. [readable e] = StoreMap::openForReadingAt would succeed on the anchor. [chain_of s i l] = l is
+   the list of slots reached from slot i through the index's slice links up to the -1 terminator. *)
 Require Import SquidV.Bytes SquidV.RockrebuildModel SquidV.RockrebuildProofs.
 Require Import SquidV.gen.RockRebuild_gen.
 Local Open Scope Z_scope.
 
-(* --- the rebuild of every image ends (the fuel of the three link-following loops is always enough) --- *)
+(* --- termination: for every image the three link-following loops end within their fuel --- *)
 Theorem C57_rebuild_terminates : forall slotSize doublecheck img,
   rebuild slotSize doublecheck img <> NoFuel.
 Proof. exact rebuild_terminates. Qed.
 Print Assumptions C57_rebuild_terminates.
+
+(* --- every readable entry, for EVERY image: its chain ends, visits no slot twice, and consists of
+       slots of the db that were loaded (mapped), finalized, with positive payload sizes --- *)
+Theorem C57_readable_chain_complete_acyclic : forall slotSize doublecheck img s f,
+  rebuild slotSize doublecheck img = Ok s -> readable (ents s f) = true ->
+  exists l, chain_of s (a_start (ents s f)) l /\ NoDup l /\
+    forall x, In x l -> 0 <= x < Z.of_nat (length img) /\ s_mapped (sls s x) = true /\
+                        s_final (sls s x) = true /\ 0 < s_size (sls s x).
+Proof. exact readable_chain_acyclic_loaded. Qed.
+Print Assumptions C57_readable_chain_complete_acyclic.
+
+(* --- no slot is in the chains of two readable entries --- *)
+Theorem C57_readable_chains_share_no_slot : forall slotSize doublecheck img s f g l1 l2 x,
+  rebuild slotSize doublecheck img = Ok s -> f <> g ->
+  readable (ents s f) = true -> readable (ents s g) = true ->
+  chain_of s (a_start (ents s f)) l1 -> chain_of s (a_start (ents s g)) l2 -> In x l1 -> In x l2 -> False.
+Proof. exact readable_chains_disjoint. Qed.
+Print Assumptions C57_readable_chains_share_no_slot.
+
+(* --- sizes: the payload sizes of the chain add up to the bytes the rebuild recorded for the entry
+       (LoadingEntry::size). PARTIAL: the property asks for the entry size (anchor.basics.swap_file_sz);
+       the two differ for the image of C57_sizes_add_up_to_entry_size_refuted. --- *)
+Theorem C57_chain_sizes_add_up_partial : forall slotSize doublecheck img s f l,
+  rebuild slotSize doublecheck img = Ok s -> readable (ents s f) = true ->
+  chain_of s (a_start (ents s f)) l -> sumsz s l = e_size (ents s f).
+Proof. exact readable_chain_sizes_partial. Qed.
+Print Assumptions C57_chain_sizes_add_up_partial.
+
+Theorem C57_sizes_add_up_to_entry_size_refuted :
+  holds_after 131072 false
+    [DHdr (mkHdr 5 7 300 100 1 0 (-1)) (MOk true 5 7 0 false 75); dE; dE; dE; dE; dE; dE] (fun s =>
+    readable (ents s 5) = true /\ chain_of s (a_start (ents s 5)) [0] /\
+    sumsz s [0] = 100 /\ a_swapsz (ents s 5) = 300).
+Proof. exact short_chain_witness. Qed.
+Print Assumptions C57_sizes_add_up_to_entry_size_refuted.
+
+(* --- a finished rebuild leaves no entry locked for writing --- *)
+Theorem C57_nothing_left_locked : forall slotSize doublecheck img s f,
+  rebuild slotSize doublecheck img = Ok s -> e_state (ents s f) <> LeLoading -> a_writing (ents s f) = false.
+Proof. exact nothing_left_locked. Qed.
+Print Assumptions C57_nothing_left_locked.
+
+(* --- "without crashing" is FALSE for the code as it is: three images on which squid dies --- *)
+Theorem C57_never_crashes_refuted_allones_size :
+  rebuild 131072 false
+    [DHdr (mkHdr 5 7 rr_entry_size_max 200 1 0 (-1)) (MOk true 5 7 0 false 75); dE; dE; dE; dE; dE; dE] = Abort.
+Proof. exact crash_allones_witness. Qed.
+Print Assumptions C57_never_crashes_refuted_allones_size.
+
+Theorem C57_never_crashes_refuted_cross_linked : rebuild 131072 false img_double_free = Abort.
+Proof. exact crash_double_free_witness. Qed.
+Print Assumptions C57_never_crashes_refuted_cross_linked.
+
+Theorem C57_never_crashes_refuted_doublecheck : exists s, rebuild 131072 true img_freed_slot_in_use = Thrown s.
+Proof. exact crash_doublecheck_witness. Qed.
+Print Assumptions C57_never_crashes_refuted_doublecheck.
+
+(* --- "that no other entry uses" is false beyond the index itself: a readable entry's slot can sit in the
+       free-slot index, from where the next swap-out takes it --- *)
+Theorem C57_chain_slots_not_free_refuted :
+  holds_after 131072 false img_freed_slot_in_use (fun s =>
+    readable (ents s 1) = true /\ chain_of s (a_start (ents s 1)) [1; 0] /\ In 0 (free s)).
+Proof. exact freed_slot_in_use_witness. Qed.
+Print Assumptions C57_chain_slots_not_free_refuted.
+
+(* --- "complete" is false: an entry without its first (inode) slot is indexed --- *)
+Theorem C57_chain_starts_at_inode_refuted :
+  holds_after 131072 false
+    [DHdr (mkHdr 5 7 0 100 1 4 (-1)) MBad; dE; dE; dE; dE; dE; dE] (fun s =>
+    readable (ents s 5) = true /\ chain_of s (a_start (ents s 5)) [0] /\ e_anch (ents s 5) = false).
+Proof. exact no_inode_witness. Qed.
+Print Assumptions C57_chain_starts_at_inode_refuted.
+
+(* --- chains can mix cells of two keys, and of two versions of one key --- *)
+Theorem C57_chain_of_one_key_refuted :
+  holds_after 131072 false img_hodgepodge (fun s =>
+    readable (ents s 1) = true /\ a_k0 (ents s 1) = 1 /\ chain_of s (a_start (ents s 1)) [1; 0] /\
+    readable (ents s 2) = true /\ a_k0 (ents s 2) = 2 /\ chain_of s (a_start (ents s 2)) [4; 2]).
+Proof. exact hodgepodge_witness. Qed.
+Print Assumptions C57_chain_of_one_key_refuted.
+
+Theorem C57_chain_of_one_version_refuted :
+  holds_after 131072 false
+    [DHdr (mkHdr 5 7 0 100 2 0 1) (MOk true 5 7 0 false 75); DHdr (mkHdr 5 7 0 100 1 0 (-1)) MBad; dE; dE; dE; dE; dE]
+    (fun s => readable (ents s 5) = true /\ chain_of s (a_start (ents s 5)) [0; 1] /\ a_swapsz (ents s 5) = 200).
+Proof. exact version_mix_witness. Qed.
+Print Assumptions C57_chain_of_one_version_refuted.
+
+(* --- the hypotheses of the implications are met by concrete images --- *)
+Example C57_example_plain_entry_indexed :
+  holds_after 131072 false
+    [dE; dE; dE; DHdr (mkHdr 5 7 200 200 1 3 (-1)) (MOk true 5 7 0 false 75); dE; dE; dE] (fun s =>
+    readable (ents s 5) = true /\ chain_of s (a_start (ents s 5)) [3] /\ sumsz s [3] = 200 /\
+    a_swapsz (ents s 5) = 200).
+Proof. exact plain_entry_example. Qed.
+
+Example C57_example_two_entries_indexed :
+  holds_after 131072 false
+    [DHdr (mkHdr 1 0 300 100 1 0 2) (MOk true 1 0 0 false 75);
+     DHdr (mkHdr 2 0 0 50 4 1 3) (MOk true 2 0 0 false 75);
+     DHdr (mkHdr 1 0 0 200 1 0 (-1)) MBad;
+     DHdr (mkHdr 2 0 0 60 4 1 (-1)) MBad; dE; dE; dE] (fun s =>
+    readable (ents s 1) = true /\ chain_of s (a_start (ents s 1)) [0; 2] /\
+    readable (ents s 2) = true /\ chain_of s (a_start (ents s 2)) [1; 3] /\ a_swapsz (ents s 2) = 110).
+Proof. exact two_entries_example. Qed.
